@@ -103,14 +103,29 @@ def run_case(case, root: Path):
     storage = LocalStorage(base / 'S', with_gitignore=False)
     key = token_string(case['key'], base)
     fn = token_string(case['fn'], base)
+    op = case['op']
+    if op.startswith('mut:'):
+        # use the key while it is harmless -- absent, then a real directory -- then replace its name by a symlink to the
+        # outside directory (same process, same storage directory), then perform the operation under observation
+        op = op[4:]
+        try:
+            storage.exists(key)
+            with storage.file_handle(key, 'warm', mode='w') as h:
+                h.write('x')
+            storage.exists(key)
+            LocalStorage(base / 'S', with_gitignore=False).exists(key)
+        except BaseException:   # noqa
+            pass
+        shutil.rmtree(base / 'S' / key, ignore_errors=True)
+        os.symlink(base / 'out', base / 'S' / key)
     before = snapshot(base.parent)
     del EVENTS[:]
     err = ''
     ARMED[0] = True
     try:
-        if case['op'] == 'exists':
+        if op == 'exists':
             storage.exists(key)
-        elif case['op'] == 'delete':
+        elif op == 'delete':
             storage.delete(key)
         else:
             h = storage.file_handle(key, fn, mode=case['mode'])
